@@ -3,6 +3,7 @@
 #include <algorithm>
 #include <cstring>
 #include <libxml/parser.h>
+#include <libxml/parserInternals.h>
 #include <libxml/tree.h>
 
 namespace vh {
@@ -46,17 +47,29 @@ namespace {
 
 xmlDocPtr parseQuiet(const std::string &s)
 {
-    xmlParserCtxtPtr ctxt = xmlNewParserCtxt();
+    // A private context whose blank handling is set explicitly: libxml2's process-wide defaults (which libCellML is
+    // known to leave modified, see C12) must not influence what the harness itself reads.
+    xmlParserCtxtPtr ctxt = xmlCreateMemoryParserCtxt(s.data(), static_cast<int>(s.size()));
     if (ctxt == nullptr) {
         return nullptr;
     }
-    xmlDocPtr doc = xmlCtxtReadMemory(ctxt, s.data(), static_cast<int>(s.size()), "m.xml", nullptr,
-                                      XML_PARSE_NOERROR | XML_PARSE_NOWARNING | XML_PARSE_NONET | XML_PARSE_HUGE);
+    ctxt->keepBlanks = 1;
+    if (ctxt->sax != nullptr) {
+        ctxt->sax->error = nullptr;
+        ctxt->sax->warning = nullptr;
+        ctxt->sax->serror = nullptr;
+        ctxt->sax->ignorableWhitespace = ctxt->sax->characters;
+    }
+    ctxt->vctxt.error = nullptr;
+    ctxt->vctxt.warning = nullptr;
+    xmlCtxtUseOptions(ctxt, XML_PARSE_NOERROR | XML_PARSE_NOWARNING | XML_PARSE_NONET | XML_PARSE_HUGE);
+    xmlParseDocument(ctxt);
+    xmlDocPtr doc = ctxt->myDoc;
     bool ok = ctxt->wellFormed != 0;
     xmlFreeParserCtxt(ctxt);
     if (doc != nullptr && !ok) {
         xmlFreeDoc(doc);
-        return nullptr;
+        doc = nullptr;
     }
     return doc;
 }
